@@ -345,6 +345,13 @@ def op_space(ref, rich=True):
             out.append(("plus", (xs,)))
         subs = [[e] for e in elems] + [[a, b] for a in elems for b in elems] + [[("new", "d")], [("str", "a")],
                                                                                  [("str", "a"), ("new", "d")]]
+        # the same element named twice in different ways (id and object), and ids mixed with objects
+        for p_ in range(n):
+            subs.append([("elemid", p_), ("elem", p_)])
+            subs.append([("elem", p_), ("elemid", p_)])
+            subs.append([("elemid", p_), ("elemid", p_)])
+            if n > 1:
+                subs.append([("elemid", p_), ("elem", (p_ + 1) % n)])
         if n:
             subs.append([("elem", 0), ("new", "d")])
         for xs in subs:
@@ -384,6 +391,8 @@ def materialise(desc, ref):
         return ref[desc[1]] if desc[1] < len(ref) else Object("zz")
     if isinstance(desc, tuple) and len(desc) == 2 and desc[0] == "str":
         return desc[1]
+    if isinstance(desc, tuple) and len(desc) == 2 and desc[0] == "elemid":
+        return ref[desc[1]].id if desc[1] < len(ref) else "zz"
     if isinstance(desc, tuple) and len(desc) == 2 and desc[0] == "fn":
         return FNS[desc[1]]
     if isinstance(desc, list):
